@@ -420,7 +420,8 @@ def check_volume(run, tier, rng):
         U, _ = np.linalg.qr(nrng.randn(d, d))
         V, _ = np.linalg.qr(nrng.randn(d, d))
         sv = np.geomspace(1.0, cond, d) if d > 1 else np.array([cond])
-        A = U @ np.diag(sv) @ V.T * rng.choice([1.0, 1e-3, 250.0])
+        # overall scales from 2^-17 (standard deviations of 1e-5, covariance eigenvalues of 1e-10) to 250: rank is a relative notion
+        A = U @ np.diag(sv) @ V.T * ([2.0 ** -17, 1e-3, 1.0, 250.0][t % 4] if t % 3 == 0 else rng.choice([1.0, 1e-3, 250.0]))
         b = nrng.randn(d) * rng.choice([0.0, 1.0, 1e3])
         v3 = float(volume_variation(x @ A + b, w))
         if abs(v3 - v) > 1e-6 * cond * max(v, 1e-9):
